@@ -313,6 +313,8 @@ def run(chk, tier, seed):
             chk.violation("crash:unfaulted:" + op.name, "driver died on the unfaulted run of %s\n%s" % (op.name, str(ex)[-2000:]), {}); s.restart(); continue
         per_op[op.name] = N
         limit = 260 if tier == "quick" else 6000
+        if tier == "quick" and op.name in ("ha-sign", "async-sign"):
+            limit = 2500        # every allocation of the service operations: the rare ones (growth of a queue) sit at high indices
         idx = list(range(1, N + 1)) if N <= limit else sorted(set(list(range(1, 60)) + rng.sample(range(60, N + 1), limit - 60) + [N]))
         sets = [[i] for i in idx] + [sorted(rng.sample(range(1, N + 1), min(N, rng.choice([2, 3])))) for _ in range(20 if tier == "quick" else 200)] + [[N + 5]]
         for F in sets:
